@@ -262,7 +262,8 @@ def api_level(ck, dist) -> None:
                 replay = {"kind": "heartbeat-api", "gen": gen, "acs": n_acs, "zones": n_zones, "console_silent_after_init": silent,
                           "trigger": {"class": "heartbeat-api", "gen": gen, "zones": n_zones, "silent": silent}}
                 if r != ("ok", True):
-                    ck.violation("init() failed in the heartbeat scenario", dict(replay, failure=str(r)), found_input=False)
+                    ck.violation("the client does not initialise against an answering console (heartbeat scenario)",
+                                 dict(replay, failure=f"init() -> {r}; console version answer {inst.version}"))
                     continue
                 t0 = rig.now_ticks()
                 m0 = len(rig.console.requests)
